@@ -97,6 +97,11 @@ def fixed_yaml_copy():
     txt = open(os.path.join(COQ, "theories", "Caches.v")).read()
     return re.search(r"Definition fixed_yaml_copy : bool := (true|false)\.", txt).group(1) == "true"
 
+def fixed_D29():
+    """fourth one-line switch of Caches.v (true = repair D96: the Fortran extension module is named per generated source)"""
+    txt = open(os.path.join(COQ, "theories", "Caches.v")).read()
+    return re.search(r"Definition fixed_D29 : bool := (true|false)\.", txt).group(1) == "true"
+
 def vec_models():
     """with the structural operator-cache key M7 has two structural classes: outside the model's domain when vectorizing"""
     return [m for m in MODELS if not (m == "M7" and fixed_op_cache_key())]
@@ -380,11 +385,15 @@ Definition okI (c : case) : bool := let '(h, f, tr, ob) := c in
 Definition okS (c : case) : bool := let '(h, f, _, ob) := c in obs_eqb (snd (step_with FX G0 f)) ob.
 (* guards, by what the final call reads: default backend = the frontend caches; Fortran = also the module tables *)
 Definition gC (c : case) : bool := let '(h, f, _, _) := c in
-  match f with FCompile _ _ _ => caches_clean (run_hist_with FX h G0) | _ => frontend_clean (run_hist_with FX h G0) end.
+  match f with
+  | FCompile _ _ _ => if fixed_D29 then frontend_clean (run_hist_with FX h G0) else caches_clean (run_hist_with FX h G0)
+  | _ => frontend_clean (run_hist_with FX h G0)
+  end.
 Definition gT (c : case) : bool := let '(h, f, _, _) := c in
   match f with YLoad _ => template_clean (run_hist_with FX h G0) | _ => true end.
+(* Fortran final: the guard of C13_partial_fortran:  fixed_D29 || FortranClean *)
 Definition gF (c : case) : bool := let '(h, f, _, _) := c in
-  match f with FCompile _ _ _ => fortran_clean (run_hist_with FX h G0) | _ => true end.
+  match f with FCompile _ _ _ => fixed_D29 || fortran_clean (run_hist_with FX h G0) | _ => true end.
 """
 
 def coq_hop(op):
@@ -530,7 +539,7 @@ def check(ctx):
              f"(of which inside the guard: {len([i for i in ev['leak'] if i not in gv])}); impl-vs-Impl mismatches {len(ev['badI'])} "
              f"(inside the guard: {len([i for i in ev['badI'] if i not in gv])}); harness/worker errors {len(ev['crashed'])}; "
              f"of the histories {sum(1 for c in cases if is_ops(c))} are the ops= stream (user helper functions; real code vs fresh interpreter only), "
-             f"{sum(1 for c in cases if is_fortran(c))} contain Fortran compilations; model switches fixed_clear={fixed_clear()} fixed_op_cache_key={fixed_op_cache_key()} fixed_yaml_copy={fixed_yaml_copy()}")
+             f"{sum(1 for c in cases if is_fortran(c))} contain Fortran compilations; model switches fixed_clear={fixed_clear()} fixed_op_cache_key={fixed_op_cache_key()} fixed_yaml_copy={fixed_yaml_copy()} fixed_D29={fixed_D29()}")
     def show(c):
         e = evaluate(ctx, [c], "show")
         o = e["outs"][0]
@@ -578,7 +587,7 @@ def check(ctx):
                         "function text, different helper definitions) and compilations with one decorator and different decorator_kwargs; plus an inputs= "
                         "stream (extrinsic input on a same-named variable, one-flag clear_frontend_caches calls; guard from the model's counters); non-trivial = the history contains >= 1 earlier compilation (it shares the file name and the node label `A`, mostly also "
                         "the operator name or the structural class, with the final model); distinct = distinct canonical JSON",
-                   samples=[c for c in cases if overlap(c)][:3], extra=dict(fixed_clear=fixed_clear(), fixed_op_cache_key=fixed_op_cache_key(), fixed_yaml_copy=fixed_yaml_copy(), input_distribution=dict(hist, ops_stream=sum(1 for c in cases if is_ops(c)), inputs_stream=sum(1 for c in cases if is_inputs(c)),
+                   samples=[c for c in cases if overlap(c)][:3], extra=dict(fixed_clear=fixed_clear(), fixed_op_cache_key=fixed_op_cache_key(), fixed_yaml_copy=fixed_yaml_copy(), fixed_D29=fixed_D29(), input_distribution=dict(hist, ops_stream=sum(1 for c in cases if is_ops(c)), inputs_stream=sum(1 for c in cases if is_inputs(c)),
                                                            inputs_unmodelled=len(ev["unmodelled"]),
                                                            fortran_stream=sum(1 for c in cases if is_fortran(c))),
                             impl_vs_model_mismatches=len(ev["badI"]), result_differs_from_fresh=len(ev["leak"])),
@@ -587,7 +596,7 @@ def check(ctx):
                                  "the model's observable is a projection (argument names, k values, state map, dy, exception class); the "
                                  "edge-argument values are compared only between the two real runs"],
                    assumptions=["guards computed by the cache model itself on the history: CachesClean (frontend caches; for a Fortran final also the table of Python "
-                                "modules by file name), TemplateClean (final from_yaml), FortranClean (final Fortran compile: no extension module imported before)",
+                                "modules by file name), TemplateClean (final from_yaml), fixed_D29 || FortranClean (final Fortran compile; FortranClean = no extension module imported before; gone once the switch fixed_D29 is true)",
                                 "model domain: one operator per node (x, k, r; polynomial right-hand side), weighted edges x -> r without delay, one "
                                 "structural class per circuit when vectorizing; Fortran backend only non-vectorized, one-node models, thorough tier; input_labels not exercised",
                                 "SHA-256 of the generated source is treated as injective (module cache keyed by the source itself)"])
